@@ -13,6 +13,7 @@ import Mrm.Spec.C05Any
 import Mrm.Model.Collection
 import Mrm.Spec.Collection
 import Mrm.DriverAccess
+import Mrm.Spec.Classify
 
 open Lean
 
@@ -114,7 +115,10 @@ def handle (j : Json) : Except String Json := do
   match op with
   | "classify" =>
     let d ← (j.getObjVal? "doc").bind xmlOfJson
-    pure (classifyJ d)
+    let specJ : Json := match specClassify d with
+      | .ok k => Json.mkObj [("kind", .str (Kind.name k))]
+      | .error e => Json.mkObj [("err", .str (Err.name e))]
+    pure ((classifyJ d).mergeObj (Json.mkObj [("spec", specJ), ("msg_elems", toJson ((msgElems d).map (·.tag)))]))
   | "add" =>
     -- model outcome of `ro + msg`; when the implementation's outcome is supplied ("impl"), every
     -- merge property is evaluated on it with the same definitions the theorems are about
